@@ -4,6 +4,7 @@ import (
 	"bytes"
 	"context"
 	"encoding/base64"
+	"encoding/binary"
 	"fmt"
 	"google.golang.org/genproto/googleapis/api/httpbody"
 	"io"
@@ -129,6 +130,19 @@ func c15Worlds() []c15World {
 			if len(rep.Out.Body) > 20 {
 				rep.Out.Body = append([]byte(nil), rep.Out.Body...)
 				rep.Out.Body[15] ^= 0x21
+			}
+			return rep
+		}, nil, big),
+		mk("undecodable-gzip-response", wire.GRPCWeb, "Unary", "json", "gzip", func(b *world.Backend, r *http.Request) *world.Reply {
+			rep := okReply(b, r)
+			out := *rep.Out
+			offs := frameOffsets(out.Body)
+			if len(offs) > 0 {
+				first := offs[0] + 5 + int(binary.BigEndian.Uint32(out.Body[offs[0]+1:]))
+				out.Body = append(wire.AppendFrame(nil, 1, wire.GzipCompress(bytes.Repeat([]byte{0xff, 0xff, 0x07}, 120))), out.Body[first:]...)
+				out.Header = out.Header.Clone()
+				out.Header.Set("Grpc-Encoding", "gzip")
+				rep.Out = &out
 			}
 			return rep
 		}, nil, big),
@@ -300,7 +314,7 @@ func c15Worlds() []c15World {
 		return &drive.ReqSpec{Method: "GET", Target: "/v1/down/d1", Header: http.Header{}, ContentLength: -1, NoBody: true}
 	}}
 	// the same method through its second binding, which has no response_body: the whole message as JSON
-	u6 := c15Req{name: "rest-blob-meta (same method, binding without response_body)", form: wire.REST, close: true, respond: echo(`{"name":"f1","num":7,"body":{"contentType":"a/b","data":"`+base64.StdEncoding.EncodeToString([]byte("meta"))+`"}}`), spec: func() *drive.ReqSpec {
+	u6 := c15Req{name: "rest-blob-meta (same method, binding without response_body)", form: wire.REST, close: true, respond: echo(`{"name":"f1","num":7,"body":{"contentType":"a/b","data":"` + base64.StdEncoding.EncodeToString([]byte("meta")) + `"}}`), spec: func() *drive.ReqSpec {
 		return &drive.ReqSpec{Method: "GET", Target: "/v1/blobmeta/f1", Header: http.Header{}, ContentLength: -1, NoBody: true}
 	}}
 	w7.history = []c15Req{u1, u2, u3, u4, u5, u6}
